@@ -159,7 +159,8 @@ let eval_fb toks =
     let delay = int_of_string (opt c "delay" "2") and desc = int_of_string (opt c "desc" "1") in
     let refined = opt c "refined" "0" = "1" and maxref = int_of_string (opt c "maxref" "5") in
     let ex = if exit_block < 0 then None else Some (nat_of_int exit_block) in
-    match fb_analyze c.prog (nat_of_int 0) ex (nat_of_int delay) (nat_of_int desc) (nat_of_int 400) fresh
+    let entry = int_of_string (opt c "entry" "0") in
+    match fb_analyze c.prog (nat_of_int 0) (nat_of_int entry) ex (nat_of_int delay) (nat_of_int desc) (nat_of_int 400) fresh
             refined (nat_of_int maxref) e_top with
     | None -> base ^ " ; checks=MODEL-ERROR"
     | Some verdicts ->
